@@ -10,7 +10,7 @@ Local Open Scope string_scope.
 Definition exit_sites : list site := [
  mkSite "pkg/bifs/types.go" "assertingCommon" 344 (Some 1%Z) true false GOther false;
  mkSite "pkg/dsl/cst/builtin_function_manager.go" "hashifyLookupTable" 2692 (Some 1%Z) true false GOther false;
- mkSite "pkg/dsl/cst/evaluable.go" "Evaluate" 169 (Some 1%Z) true false GErrTest true;
+ mkSite "pkg/dsl/cst/evaluable.go" "Evaluate" 170 (Some 1%Z) true false GErrTest true;
  mkSite "pkg/dsl/cst/hofs.go" "getHOFSpace" 105 (Some 1%Z) true false GOther false;
  mkSite "pkg/dsl/cst/hofs.go" "getHOFSpace" 115 (Some 1%Z) true false GErrTest false;
  mkSite "pkg/dsl/cst/hofs.go" "getHOFSpace" 129 (Some 1%Z) true false GOther false;
@@ -19,12 +19,12 @@ Definition exit_sites : list site := [
  mkSite "pkg/dsl/cst/hofs.go" "selectArray" 247 (Some 1%Z) true false GErrTest false;
  mkSite "pkg/dsl/cst/hofs.go" "selectMap" 284 (Some 1%Z) true false GErrTest false;
  mkSite "pkg/dsl/cst/hofs.go" "SortHOF" 552 (Some 1%Z) true false GOther false;
- mkSite "pkg/dsl/cst/hofs.go" "sortAF" 861 (Some 1%Z) true false GErrTest false;
- mkSite "pkg/dsl/cst/hofs.go" "sortMF" 905 (Some 1%Z) true false GErrTest false;
- mkSite "pkg/dsl/cst/hofs.go" "anyArray" 957 (Some 1%Z) true false GErrTest false;
- mkSite "pkg/dsl/cst/hofs.go" "anyMap" 995 (Some 1%Z) true false GErrTest false;
- mkSite "pkg/dsl/cst/hofs.go" "everyArray" 1047 (Some 1%Z) true false GErrTest false;
- mkSite "pkg/dsl/cst/hofs.go" "everyMap" 1085 (Some 1%Z) true false GErrTest false;
+ mkSite "pkg/dsl/cst/hofs.go" "sortAF" 869 (Some 1%Z) true false GErrTest false;
+ mkSite "pkg/dsl/cst/hofs.go" "sortMF" 913 (Some 1%Z) true false GErrTest false;
+ mkSite "pkg/dsl/cst/hofs.go" "anyArray" 965 (Some 1%Z) true false GErrTest false;
+ mkSite "pkg/dsl/cst/hofs.go" "anyMap" 1003 (Some 1%Z) true false GErrTest false;
+ mkSite "pkg/dsl/cst/hofs.go" "everyArray" 1055 (Some 1%Z) true false GErrTest false;
+ mkSite "pkg/dsl/cst/hofs.go" "everyMap" 1093 (Some 1%Z) true false GErrTest false;
  mkSite "pkg/dsl/cst/udf.go" "Evaluate" 131 (Some 1%Z) true false GErrTest false;
  mkSite "pkg/dsl/cst/udf.go" "Evaluate" 188 (Some 1%Z) true false GOther false;
  mkSite "pkg/dsl/cst/udf.go" "Evaluate" 200 (Some 1%Z) true false GErrTest true;
@@ -48,11 +48,12 @@ Definition exit_sites : list site := [
  mkSite "pkg/mlrval/mlrval_get.go" "GetNumericToFloatValueOrDie" 175 (Some 1%Z) true false GErrTest false;
  mkSite "pkg/mlrval/mlrval_get.go" "StrictModeCheck" 187 (Some 1%Z) true false GOther false;
  mkSite "pkg/mlrval/mlrval_output.go" "setPrintRep" 103 (Some 1%Z) true false GErrTest true;
- mkSite "pkg/mlrval/mlrval_output.go" "setPrintRep" 112 (Some 1%Z) true false GErrTest true
+ mkSite "pkg/mlrval/mlrval_output.go" "setPrintRep" 112 (Some 1%Z) true false GErrTest true;
+ mkSite "pkg/transformers/seqgen.go" "next" 206 (Some 1%Z) true false GOther false
 ].
 Definition exit_request_sites : list site := [
- mkSite "pkg/cli/option_parse.go" "init" 3460 (Some 0%Z) false false GOther false;
- mkSite "pkg/cli/option_parse.go" "init" 3469 (Some 0%Z) false false GOther false;
+ mkSite "pkg/cli/option_parse.go" "init" 3505 (Some 0%Z) false false GOther false;
+ mkSite "pkg/cli/option_parse.go" "init" 3514 (Some 0%Z) false false GOther false;
  mkSite "pkg/climain/mlrcli_parse.go" "parseCommandLinePassOne" 157 (Some 0%Z) false true GOther false;
  mkSite "pkg/climain/mlrcli_parse.go" "parseCommandLinePassOne" 163 (Some 0%Z) false true GOther false;
  mkSite "pkg/climain/mlrcli_parse.go" "parseCommandLinePassOne" 169 (Some 0%Z) false false GOther false;
